@@ -190,7 +190,7 @@ def opUrdf : RM Res := do
       | .ok _ => false
     let preds := [P "C20.nopanic" (true, "")] ++ (match exp with
       | some _ => [P "C20.extracts" (false, s!"a description generated from OPW parameters in a supported layout was rejected ({kind})")]
-      | none => [])
+      | none => if hasExp == 2 then [P "C20.rejects" (true, "")] else [])
     pure { corr := if ok then "OK" else "MISMATCH", detail := if ok then "" else s!"from_urdf Err({kind}), model differs", preds := preds, tags := [s!"err={kind}"] }
   else
     let got ← rUP
@@ -199,6 +199,8 @@ def opUrdf : RM Res := do
       | .ok m => upClose 0.0 got (upOfModel m)
       | .error _ => false
     let mut preds := [P "C20.nopanic" (true, ""), P "C20.unconstrained" (probe, "a joint without limits is not unconstrained in the resulting solver")]
+    if hasExp == 2 then
+      preds := preds ++ [P "C20.rejects" (false, s!"a description with a missing joint, a conflicting duplicate or malformed XML was accepted: {got.geo} limits {got.fr} {got.tt}")]
     match exp with
     | some e =>
       preds := preds ++ [P "C20.parameters" (closeList (fun (a b : Float) => a == b || (a - b).abs ≤ 1e-12 * (1.0 + b.abs)) got.geo e.geo, s!"parameters {got.geo} expected {e.geo}"),
